@@ -6,11 +6,13 @@ from checks.harness import meta
 PROPERTY = "C11"
 LEVEL = "other"
 LEAN_MODULES = ["Exetera.Props.C11", "Exetera.Props.C11Ranges"]
-BASES = ["c03", "c04", "c08", "c09", "c14", "c16", "c17", "c06", "c05", "c01", "c07", "c11x"]   # c11x: mode-differential-only cases (floats with NaN, dtype bounds)
+BASES = ["c03", "c04", "c08", "c09", "c14", "c16", "c17", "c06", "c05", "c01", "c07", "c11x"]   # c11x: the mode-differential sweep of the public operations (no model)
 MODES = {"quick": ["jit", "nojit"], "thorough": ["jit", "nojit"], "search": ["jit", "nojit"]}
 MODE_DIFF_IS_VIOLATION = True
 EXHAUSTIVE = {"quick": False, "thorough": False}
-TECHNIQUE = "two-mode differential execution (numba JIT vs USE_NUMBA=false) against a mode-independent Lean model + Lean range lemmas (no fixed-width wrap)"
+TECHNIQUE = ("two-mode differential execution (numba JIT vs USE_NUMBA=false): the owning properties' cases against a mode-independent Lean model, "
+             "plus a systematic model-free sweep of the public operations over the dtypes / values on which the modes can part ways (c11x); "
+             "Lean range lemmas (no fixed-width wrap)")
 LEVEL_TEXT = ("Other: the Lean model is a third, mode-independent semantics; the implementation is run in both modes on the same cases, "
               "each compared with the model and with each other (values, dtypes, error kinds). Lean range lemmas prove, from the owning "
               "properties' functional theorems, that fixed-width wrap-around — the only JIT/interpreter divergence the model can "
@@ -23,20 +25,48 @@ LEVEL_TEXT = ("Other: the Lean model is a third, mode-independent semantics; the
               "destination's byte count (range_safe_filter_indexed, range_safe_index_indexed, range_safe_concat); the journalling "
               "index maps hold -1 or a row number of their table (range_safe_journal_indices); the offsets of every CSV-imported "
               "indexed field are <= its byte count, under C05's no-regrowth hypotheses (range_safe_csv_offsets_partial). Each "
-              "lemma ends in FitsInt32/FitsInt64 under 'rows < 2^31' resp. 'rows/bytes < 2^63'.")
+              "lemma ends in FitsInt32/FitsInt64 under 'rows < 2^31' resp. 'rows/bytes < 2^63'. "
+              "What no Int-valued model can carry is decided by direct comparison of the two modes alone (base c11x, no model): 19 families "
+              "of public entry points - span detection, every apply_spans_* (ops / Session / Field level, the _filter and _indexed forms), "
+              "apply_spans_concat, apply_filter / apply_index (Field, Session, DataFrame; target, in-place, destination forms), sort_values / "
+              "Session.sort_on / dataset_sort_index, the map_valid / safe_map / streamed mapping functions, DataFrame.merge (all four "
+              "modes, truthful / absent hints, injected chunk sizes 1-3), the Session merge helpers with get_index and join, groupby / "
+              "drop_duplicates, Session.aggregate_*, isin / unique per field type, journal.journal_table, read_csv_with_schema_dict (every "
+              "importer kind and validation mode, small chunk_row_size), to_csv / to_pandas, every Field operator, date_time_helpers, and "
+              "the module-level kernels nothing else calls - over every numeric dtype incl. bool and the unsigned ones at their bounds, "
+              "float32 / float64 with NaN first / middle / last of a group, +-inf, -0.0 vs 0.0, subnormals and the largest finite value, "
+              "fixed strings with trailing blanks / NUL / high bytes, indexed strings empty / multi-byte / with equal prefixes, empty and "
+              "one-row columns, span / index / filter arrays of every integer dtype at their largest value, Python vs numpy scalars vs 0-d "
+              "arrays, Field vs ndarray vs list arguments. Compared: class of the result, dtype, length, values (floats by repr, fixed "
+              "strings as raw full-width bytes), error class.")
 LEVEL_NOTE = ("Not a proof of mode equivalence: numba's type unification, typed lists, optional arguments and bytes comparison are runtime "
               "behaviour no model of mine exhibits; they are covered by the differential run only (generator quality bounds what it sees). "
               "The range lemmas speak about STORED values (the observable arrays); intermediate quantities are differences of two stored "
               "offsets / two row numbers of one window, and buffer positions are bounded by the capacities because every write of the "
               "models is a checked access — stated in the header of Props/C11Ranges.lean, not as separate theorems. Group-by, sort "
               "permutations, isin/unique and the numeric transforms have no range lemma (their stored integers are row numbers or "
-              "counts <= the row count by the owners' specs, not restated here).")
+              "counts <= the row count by the owners' specs, not restated here). The c11x sweep is sampling, not enumeration: the quick "
+              "tier runs a seeded slice of the (family x entry point x dtype) grid (the distribution tags `x_<family>:<dtype class>`, "
+              "`x_<family>/<entry point>` show what a run exercised), the thorough tier about 25 times as much. Inputs whose compiled "
+              "behaviour is undefined (a subscript outside its array inside a kernel: spans that decrease or end beyond the column, an "
+              "index beyond the column handed to an unchecked ops.* kernel, a destination that is too short, result[-1] of an empty "
+              "array) are not generated; a difference only in the class of the exception raised for a call with an argument of a type the "
+              "API does not accept is not generated either. c11x cases are BATCHES of up to 10 (quick) / 24 (thorough) sub-cases (6 / 8 for the families that compile many kernels per case) that "
+              "call the same kernels at the same numba signatures, so that one worker compiles each signature; a batch differs iff one of "
+              "its sub-cases does (`python -m checks.harness.c11x <replay.json>` prints the differing sub-cases).")
 RULE = ("cases of the owning properties' generators (seeded sample per property) executed in both modes; a case counts as non-trivial "
-        "by the owning harness's rule; distinct = distinct case dict")
-ASSUMPTIONS = ["the cases exercise the kernels decorated for compilation (each owning harness calls the public entry points)"]
+        "by the owning harness's rule; distinct = distinct case dict. Base c11x: corpus/C11 first, then per family hand-written cases "
+        "(NaN first / middle / last of a span or group, -0.0 / 0.0, narrow span / index dtypes whose largest value is used) and seeded "
+        "cases over the dtype grid; a c11x case is a batch of sub-cases sharing kernels and signatures; a batch is non-trivial when a "
+        "sub-case holds a value at a dtype bound / a float special / a blank, NUL, high or multi-byte string / a narrow index dtype; "
+        "the distribution counts sub-cases (one tag per family x dtype class and per family x entry point)")
+ASSUMPTIONS = ["the cases exercise the kernels decorated for compilation (each owning harness calls the public entry points)",
+               "c11x: calls are valid (arguments of the documented types, truthful hints, well-formed spans / indices); an out-of-range "
+               "subscript inside a compiled kernel is undefined behaviour and is not generated"]
 TRUSTED = ["Lean 4.33 kernel (range lemmas)", "checks/harness/*.py"]
 EXPLANATION = ("JIT-mode and interpreted-mode executions of the same seeded cases are diffed (values, dtypes, lengths, error kinds) and "
-               "both are compared with the Lean model; Lean theorems left_map_range / right_map_range / left_streamed_fits_int32 and the "
+               "both are compared with the Lean model (the c11x sweep of the public operations over dtype bounds / float specials / "
+               "string edge cases has no model: there the two modes are compared with each other only); Lean theorems left_map_range / right_map_range / left_streamed_fits_int32 and the "
                "range_safe_* lemmas of Props/C11Ranges.lean exclude fixed-width wrap in the join maps, the map-valid streams, the span, "
                "filter/index, concat, journalling and CSV-import kernels.")
 
@@ -59,6 +89,19 @@ compare = meta.compare
 
 def check_spec(case, io, mode):
     return None
+
+
+def mode_diff_ok(case, jit_out, other_out, mode):
+    """a difference between the modes that the owning base declares legitimate (with its reason, in that base)"""
+    f = getattr(meta.base(case["_h"]), "mode_diff_ok", None)
+    return bool(f and f(case, jit_out, other_out, mode))
+
+
+def match_finding(case, io, mode):
+    """only for bases that take part in the mode comparison themselves (they define mode_diff_ok): the other bases' matchers are
+    about failures of THEIR property's oracle, not about a difference between the modes"""
+    b = meta.base(case["_h"])
+    return b.match_finding(case, io, mode) if hasattr(b, "mode_diff_ok") and hasattr(b, "match_finding") else None
 
 
 def select_for_mode(case, mode, tier):
